@@ -1287,6 +1287,7 @@ class Symbolic(
     if field_updates is not None:
       nodes = [update.target for update in field_updates]
     for node in nodes:
+      node._sym_on_silent_change()   # pylint: disable=protected-access
       while node is not None:
         # pylint: disable=protected-access
         node._set_raw_attr('_sym_puresymbolic', None)
@@ -1294,6 +1295,13 @@ class Symbolic(
         node._set_raw_attr('_sym_nondefault_values', None)
         # pylint: enable=protected-access
         node = node.sym_parent
+
+  def _sym_on_silent_change(self) -> None:
+    """Called on a changed node when the change is not notified.
+
+    Subclasses can override this to do the structural part of `_on_change`
+    (e.g. `pg.List` removes the items that were set to `MISSING_VALUE`).
+    """
 
   def _error_message(self, message: str) -> str:
     """Create error message to include path information."""
